@@ -19,10 +19,7 @@ LEVEL = "fault_enumeration"
 TS = [0.15, 0.25, 0.4]
 
 
-def build_schedule(u):
-    T = u.choice(TS)
-    ver = u.choice(["v1", "v2c", "v3"])
-    driver = u.choice(["sync", "sync", "async"])
+def build_call(u, T):
     k = u.below(9)
     strays = []
     t = 0.0
@@ -38,8 +35,18 @@ def build_schedule(u):
         rt = (1.3 + 0.7 * u.below(100) / 100.0) * T
     else:
         rt = None
+    return {"strays": strays, "reply": reply, "reply_at": None if rt is None else round(rt, 4)}
+
+
+def build_schedule(u):
+    """1..3 consecutive calls on ONE session (state left by an earlier call - e.g. a shortened socket timeout - must not
+    affect the next one)."""
+    T = u.choice(TS)
+    ver = u.choice(["v1", "v2c", "v3"])
+    driver = u.choice(["sync", "sync", "async"])
     kind = u.choice(["reqid", "reqid", "community_or_msgid"])
-    return {"T": T, "ver": ver, "driver": driver, "strays": strays, "reply": reply, "reply_at": None if rt is None else round(rt, 4), "stray_kind": kind}
+    calls = [build_call(u, T) for _ in range(u.range(1, 3))]
+    return {"T": T, "ver": ver, "driver": driver, "calls": calls, "stray_kind": kind}
 
 
 def run_schedule(args):
@@ -58,113 +65,166 @@ def run_schedule(args):
     cfg = {"v1": ag.Cfg("v1"), "v2c": ag.Cfg("v2c"),
            "v3": ag.Cfg("v3", engine_id=gen.ENGINE_IDS[0], auth="sha1", auth_kt="localized")}[sched["ver"]]
     vb = [rb.varbind(rb.enc_oid((1, 3, 6, 1, 2, 1, 1, 3, 0)), rb.enc_int(4242))]
-    events = sorted([(t, "stray") for t in sched["strays"]] + ([(sched["reply_at"], "reply")] if sched["reply_at"] is not None else []))
+
+    def events_of(call):
+        return sorted([(t, "stray") for t in call["strays"]] + ([(call["reply_at"], "reply")] if call["reply_at"] is not None else []))
 
     def emit(req, kind):
         if kind == "reply":
             return ag.build_reply(cfg, req, vb)
-        if sched["stray_kind"] == "reqid" or cfg.version == "v3" and False:
+        if sched["stray_kind"] == "reqid":
             return ag.build_reply(cfg, req, vb, request_id=(req["request_id"] ^ 0x1234) & 0x7FFFFFFF)
         if cfg.version == "v3":
             return ag.build_reply(cfg, req, vb, msg_id=(req["msg_id"] ^ 0x55) & 0x7FFFFFFF)
         return ag.build_reply(cfg, req, vb, community=b"other")
 
+    results = []
     if sched["driver"] == "sync":
         import socket as so
         sock = so.socket(so.AF_INET, so.SOCK_DGRAM)
         sock.bind(("127.0.0.1", 0))
-        sock.settimeout(5)
+        sock.settimeout(8)
         port = sock.getsockname()[1]
+        done = threading.Event()
 
         def agent():
-            try:
-                d, a = sock.recvfrom(65535)
-            except OSError:
-                return
-            t0 = time.monotonic()
-            req = ag.decode_request(cfg, d, strict=False)
-            for t, kind in events:
-                dt = t - (time.monotonic() - t0)
-                if dt > 0:
-                    time.sleep(dt)
+            for call in sched["calls"]:
                 try:
-                    sock.sendto(emit(req, kind), a)
+                    d, a = sock.recvfrom(65535)
                 except OSError:
-                    return  # the call under test is over and the socket closed
+                    return
+                t0 = time.monotonic()
+                req = ag.decode_request(cfg, d, strict=False)
+                for t, kind in events_of(call):
+                    dt = t - (time.monotonic() - t0)
+                    if dt > 0:
+                        time.sleep(dt)
+                    try:
+                        sock.sendto(emit(req, kind), a)
+                    except OSError:
+                        return
+                # do not start serving the next request before this call's late datagrams are out
+                done.wait(0.01)
 
         th = threading.Thread(target=agent, daemon=True)
         th.start()
         s = drivers.sync_session(G, cfg, port, timeout=T)
-        t0 = time.monotonic()
-        try:
-            v = s.get("1.3.6.1.2.1.1.3.0")
-            out = ("ok", v)
-        except TimeoutError:
-            out = ("timeout", None)
-        except BaseException as e:  # noqa: BLE001
-            out = ("exc", repr(e))
-        el = time.monotonic() - t0
+        for call in sched["calls"]:
+            t0 = time.monotonic()
+            try:
+                v = s.get("1.3.6.1.2.1.1.3.0")
+                out = ("ok", v)
+            except TimeoutError:
+                out = ("timeout", None)
+            except BaseException as e:  # noqa: BLE001
+                out = ("exc", repr(e))
+            el = time.monotonic() - t0
+            results.append({"outcome": out[0], "value": out[1], "elapsed": el})
+            # let every datagram of this call's schedule arrive and be discarded by the *harness* before the next call:
+            # stale datagrams of an earlier request are C04's subject, not this property's
+            last = max([t for t, _ in events_of(call)] + [0.0])
+            rest = last - el + 0.05
+            if rest > 0:
+                time.sleep(rest)
+            drain(s)
         sock.close()
-        return {"outcome": out[0], "value": out[1], "elapsed": el}
+        return results
     import asyncio
 
     async def main():
         loop = asyncio.get_running_loop()
-        st = {}
+        state = {"i": 0}
 
         class Proto(asyncio.DatagramProtocol):
             def connection_made(self, tr):
                 self.tr = tr
 
             def datagram_received(self, data, addr):
+                call = sched["calls"][min(state["i"], len(sched["calls"]) - 1)]
                 req = ag.decode_request(cfg, data, strict=False)
-                for t, kind in events:
+                for t, kind in events_of(call):
                     loop.call_later(t, self.tr.sendto, emit(req, kind), addr)
 
         tr, _ = await loop.create_datagram_endpoint(Proto, local_addr=("127.0.0.1", 0))
         port = tr.get_extra_info("sockname")[1]
         s = drivers.async_session(G, cfg, port, timeout=T)
-        t0 = time.monotonic()
-        try:
-            v = await s.get("1.3.6.1.2.1.1.3.0")
-            out = ("ok", v)
-        except TimeoutError:
-            out = ("timeout", None)
-        except BaseException as e:  # noqa: BLE001
-            if isinstance(e, (asyncio.CancelledError, KeyboardInterrupt)):
-                raise
-            out = ("exc", repr(e))
-        st["el"] = time.monotonic() - t0
+        for i, call in enumerate(sched["calls"]):
+            state["i"] = i
+            t0 = time.monotonic()
+            try:
+                v = await s.get("1.3.6.1.2.1.1.3.0")
+                out = ("ok", v)
+            except TimeoutError:
+                out = ("timeout", None)
+            except BaseException as e:  # noqa: BLE001
+                if isinstance(e, (asyncio.CancelledError, KeyboardInterrupt)):
+                    raise
+                out = ("exc", repr(e))
+            el = time.monotonic() - t0
+            results.append({"outcome": out[0], "value": out[1], "elapsed": el})
+            last = max([t for t, _ in events_of(call)] + [0.0])
+            rest = last - el + 0.05
+            if rest > 0:
+                await asyncio.sleep(rest)
+            drain(s)
         tr.close()
-        return out, st["el"]
+        return results
 
-    out, el = asyncio.run(main())
-    return {"outcome": out[0], "value": out[1], "elapsed": el}
+    return asyncio.run(main())
 
 
-def judge(sched, r):
+def drain(session):
+    """Throw away datagrams still queued on the client's socket (reads the fd directly, outside the library)."""
+    import socket as so
+    try:
+        dup = so.socket(fileno=os.dup(session._fd))
+    except Exception:  # noqa: BLE001
+        return
+    try:
+        dup.setblocking(False)
+        while True:
+            try:
+                dup.recv(65535)
+            except (BlockingIOError, OSError):
+                break
+    finally:
+        # restore blocking mode of the shared open file description for the sync client (timeout is SO_RCVTIMEO based)
+        if ".sync_client." in type(session).__module__:
+            dup.setblocking(True)
+        dup.close()
+
+
+def judge_call(sched, i, r):
     """None if fine, else (signature, message, is_timing)."""
     T = sched["T"]
+    call = sched["calls"][i]
     slack = max(0.12, 0.5 * T)
-    desc = "%s/%s T=%.2fs strays at %r, reply %s%s -> %s after %.3fs" % (
-        sched["driver"], sched["ver"], T, sched["strays"], sched["reply"],
-        "" if sched["reply_at"] is None else " at %.3f" % sched["reply_at"], r["outcome"], r["elapsed"])
+    desc = "%s/%s T=%.2fs call %d of %d: strays at %r, reply %s%s -> %s after %.3fs" % (
+        sched["driver"], sched["ver"], T, i + 1, len(sched["calls"]), call["strays"], call["reply"],
+        "" if call["reply_at"] is None else " at %.3f" % call["reply_at"], r["outcome"], r["elapsed"])
+    if i:
+        desc += " (earlier calls on this session: %r)" % ([(c["strays"], c["reply"]) for c in sched["calls"][:i]],)
     if r["outcome"] == "exc":
         return ("unexpected-exception", desc + " " + str(r["value"]), False)
-    if sched["reply"] == "early":
+    if call["reply"] == "early":
         if r["outcome"] != "ok" or r["value"] != 4242:
-            # the reply was sent at <= 0.7T: only severe scheduling noise could make it miss the deadline
-            return ("timely-reply-not-delivered", desc, True)
+            return ("timely-reply-not-delivered:driver=%s" % sched["driver"], desc, True)
         return None
     if r["outcome"] == "ok":
-        # a reply scheduled after the deadline may legitimately be delivered only if the call was still waiting: that is the overrun
-        return ("late-reply-delivered:driver=%s" % sched["driver"], desc + " (the call was still waiting at %.3fs, deadline %.2fs)" % (sched["reply_at"] or 0, T), True)
+        return ("late-reply-delivered:driver=%s" % sched["driver"], desc + " (the call was still waiting at %.3fs, deadline %.2fs)" % (call["reply_at"] or 0, T), True)
     if r["elapsed"] > T + slack:
-        tracks = bool(sched["strays"]) and abs(r["elapsed"] - (max(sched["strays"]) + T)) < 0.15
-        return ("timeout-overrun:driver=%s:%s" % (sched["driver"], "tracks-strays" if tracks else "other"),
-                desc + " (bound %.3fs)" % (T + slack), True)
+        tracks = bool(call["strays"]) and abs(r["elapsed"] - (max(call["strays"]) + T)) < 0.15
+        return ("timeout-overrun:driver=%s:%s" % (sched["driver"], "tracks-strays" if tracks else "other"), desc + " (bound %.3fs)" % (T + slack), True)
     if r["elapsed"] < T - 0.05:
-        return ("timeout-too-early", desc, True)
+        return ("timeout-too-early:driver=%s" % sched["driver"], desc, True)
+    return None
+
+
+def judge(sched, results):
+    for i, r in enumerate(results):
+        j = judge_call(sched, i, r)
+        if j is not None:
+            return j
     return None
 
 
@@ -173,7 +233,7 @@ def run(rep, tier):
     pkg = build.ensure_ext()
     rep.rule = ("Hypothesis-generated batch of arrival schedules (T in {0.15,0.25,0.4}s; 0..8 non-matching datagrams with gaps 0.25T..0.8T; "
                 "matching reply none / early (0.2T..0.7T) / late (1.3T..2T)) x sync/async x v1/v2c/v3, run in 16 worker processes. "
-                "Non-trivial = schedule with >=2 strays and no timely matching reply; distinct by schedule.")
+                "Each schedule is 1..3 consecutive calls on one session. Non-trivial = a call with >=2 strays and no timely matching reply, or a multi-call schedule; distinct by schedule.")
     rep.assumptions = ["wall-clock oracle with slack max(0.12s, 0.5T); an overrun must reproduce in two isolated re-runs to be reported",
                        "loopback latency is negligible against the 150..400 ms timeouts"]
     n = 48 if tier == "quick" else 600
@@ -196,16 +256,31 @@ def run(rep, tier):
     canon = []
     for T in TS:
         for drv in ("sync", "async"):
-            canon.append({"T": T, "ver": "v2c", "driver": drv, "strays": [round(0.6 * T * (i + 1), 4) for i in range(3)], "reply": "none",
-                          "reply_at": None, "stray_kind": "reqid"})
+            canon.append({"T": T, "ver": "v2c", "driver": drv, "stray_kind": "reqid",
+                          "calls": [{"strays": [round(0.6 * T * (i + 1), 4) for i in range(3)], "reply": "none", "reply_at": None}]})
+            # state left by a call that skipped a datagram and then timed out must not shorten the next call
+            canon.append({"T": T, "ver": "v2c", "driver": drv, "stray_kind": "reqid",
+                          "calls": [{"strays": [round(0.7 * T, 4)], "reply": "none", "reply_at": None},
+                                    {"strays": [], "reply": "early", "reply_at": round(0.6 * T, 4)}]})
     scheds = canon + scheds
     ctx = mp.get_context("spawn")
-    with ctx.Pool(16) as pool:
-        results = pool.map(run_schedule, [(s, pkg) for s in scheds], chunksize=1)
+    import concurrent.futures as cf
+    # ProcessPoolExecutor (unlike Pool.map) notices a worker that died; a hung worker is bounded by the timeout below
+    results = []
+    try:
+        with cf.ProcessPoolExecutor(16, mp_context=ctx) as ex:
+            futs = [ex.submit(run_schedule, (s, pkg)) for s in scheds]
+            for s, f in zip(scheds, futs):
+                results.append(f.result(timeout=120))
+    except cf.process.BrokenProcessPool:
+        raise core.Inconclusive("a schedule worker process died; C01 judges crashes, this check only timing")
+    except cf.TimeoutError:
+        rep.violation("call-never-returned", {"schedule": scheds[len(results)]}, "a blocking call did not return within 120 s (timeout %.2fs): %r" % (scheds[len(results)]["T"], scheds[len(results)]))
+        os._exit(1 if rep.finish() else 1)
     noise = 0
     for s, r in zip(scheds, results):
         j = judge(s, r)
-        nt = len(s["strays"]) >= 2 and s["reply"] != "early"
+        nt = any(len(c_["strays"]) >= 2 and c_["reply"] != "early" for c_ in s["calls"]) or len(s["calls"]) >= 2
         if j is not None:
             sig, msg, timing = j
             if timing:
@@ -214,7 +289,7 @@ def run(rep, tier):
                     again = [pool.apply(run_schedule, ((s, pkg),)) for _ in range(2)]
                 js = [judge(s, a) for a in again]
                 if all(x is not None for x in js):
-                    rep.violation(sig, {"schedule": s, "runs": [r] + again}, msg + "; reproduced in 2 isolated re-runs: %s" % [round(a["elapsed"], 3) for a in again])
+                    rep.violation(sig, {"schedule": s, "runs": [r] + again}, msg + "; reproduced in 2 isolated re-runs: %s" % [[round(x["elapsed"], 3) for x in a] for a in again])
                     if len(rep.violations) >= 3:
                         break
                     continue
@@ -222,8 +297,9 @@ def run(rep, tier):
             else:
                 rep.violation(sig, {"schedule": s, "runs": [r]}, msg)
                 continue
-        rep.case(repr(s), nt, sample={"schedule": s, "outcome": r["outcome"], "elapsed_s": round(r["elapsed"], 3)},
-                 classes=["driver:" + s["driver"], "ver:" + s["ver"], "reply:" + s["reply"], "strays:%d" % min(len(s["strays"]), 4), "outcome:" + r["outcome"]])
+        rep.case(repr(s), nt, sample={"schedule": s, "outcomes": [x["outcome"] for x in r], "elapsed_s": [round(x["elapsed"], 3) for x in r]},
+                 classes=["driver:" + s["driver"], "ver:" + s["ver"], "calls:%d" % len(s["calls"])] + ["reply:" + c_["reply"] for c_ in s["calls"]]
+                 + ["strays:%d" % min(len(c_["strays"]), 4) for c_ in s["calls"]] + ["outcome:" + x["outcome"] for x in r])
     rep.extra["scheduling_noise_events"] = noise
 
 
